@@ -84,6 +84,7 @@ def ops_for(pair):
       coords = [(0,), (1,)] if kind == 'dim1' else [(0, 0), (0, 1)]
       ops += [['setc', name, list(c), v] for c in coords for v in DIM_VALUES]
       ops.append(['set', name, 5])                       # dimensioned without coordinates
+      ops.append(['peek', name])                         # the phase looks at what it has measured so far
       wrong = [0, 1] if kind == 'dim1' else [0]
       ops.append(['setc', name, wrong, 3])               # wrong number of coordinates
   ops.append(['set', 'undeclared', 5])
@@ -113,7 +114,13 @@ def run_impl(pair, hist, diag_present, catch_last):
     for i, op in enumerate(hist):
       last = i == len(hist) - 1
       try:
-        if op[0] == 'set':
+        if op[0] == 'peek':
+          try:        # (reading a measurement that has no value yet raises by design: the look itself is the point)
+            mv = test.measurements[op[1]]
+            _ = (mv.value, str(mv), dict(mv))
+          except Exception:  # pylint: disable=broad-except
+            pass
+        elif op[0] == 'set':
           test.measurements[op[1]] = op[2]
         else:
           c = op[2]
@@ -167,6 +174,9 @@ def run_ref(pair, hist, diag_present, catch_last):
       m = ms.get(op[1])
       if m is None:
         raise KeyError('NotAMeasurementError')
+      if op[0] == 'peek':
+        log.append(('ok',))
+        continue
       if op[0] == 'set':
         if m.ndims():
           raise KeyError('InvalidDimensionsError')
@@ -252,10 +262,16 @@ def histories(pair, depth):
   for d in range(1, depth + 1):
     for h in itertools.product(ops, repeat=d):
       yield list(h)
+  # one step deeper for histories in which the phase looks at a measurement between two assignments
+  for h in itertools.product(ops, repeat=depth + 1):
+    if h[1][0] == 'peek' and h[0][0] != 'peek' and h[-1][0] != 'peek' and (depth == 2 or h[2][0] != 'peek'):
+      yield list(h)
 
 
 def hsig(pair, hist):
   def o(op):
+    if op[0] == 'peek':
+      return 'peek(%s)' % op[1]
     if op[0] == 'set':
       return '%s=%s' % (op[1], 'nan' if isinstance(op[2], float) and op[2] != op[2] else repr(op[2]))
     return '%s%s=%r' % (op[1], op[2], op[3])
@@ -349,6 +365,73 @@ def rerun_sequence(seq):
   return bad
 
 
+def repeat_sequence(vals, how):
+  """One phase invoked len(vals) times in one run (REPEAT, or repeat_on_measurement_fail): the k-th record holds what the
+  k-th invocation assigned -- scalar S1 and dimensioned D1 -- judged on its own."""
+  L = progs.lib()
+  h = L['htf']
+  ma = build_measurement('ma', SPECS['S1'])
+  mb = build_measurement('mb', SPECS['D1'])
+  count = {'n': 0}
+
+  def body(test):
+    k = count['n']
+    count['n'] += 1
+    if vals[k] is not None:
+      test.measurements['ma'] = vals[k]
+      test.measurements['mb'][0] = vals[k]
+    if how == 'repeat' and k < len(vals) - 1:
+      return h.PhaseResult.REPEAT
+    return None
+
+  body.__name__ = 'mphase'
+  opts = {'repeat_limit': len(vals)}
+  if how == 'on_fail':
+    opts['repeat_on_measurement_fail'] = True
+  ph = h.measures(ma, mb)(h.PhaseOptions(name='mphase', **opts)(body))
+  res, recs, test, terr = htf.run_test([ph])
+  precs = [p for p in recs[0].phases if p.name == 'mphase']
+  bad = []
+  expected_runs = len(vals)
+  if how == 'on_fail':
+    expected_runs = 0
+    for v in vals:
+      expected_runs += 1
+      e = run_ref(('S1', 'D1'), ([['set', 'ma', v], ['setc', 'mb', [0], v]] if v is not None else []), False, True)
+      if e['phase_outcome'] != 'FAIL':
+        break
+  if len(precs) != expected_runs:
+    bad.append(('repeat-count', 'values %r (%s): %d phase records, expected %d' % (vals, how, len(precs), expected_runs)))
+  for k, prec in enumerate(precs[:expected_runs]):
+    v = vals[k]
+    exp = run_ref(('S1', 'D1'), ([['set', 'ma', v], ['setc', 'mb', [0], v]] if v is not None else []), False, True)
+    for name in ('ma', 'mb'):
+      m = prec.measurements[name]
+      val = m.measured_value.value if m.measured_value.is_value_set else None
+      g = {'value': norm_value(val), 'outcome': m.outcome.name, 'marginal': bool(m.marginal)}
+      if g != exp['meas'][name]:
+        bad.append(('repeat-record', 'invocation %d of %r (%s): record has %s = %r, that invocation assigned %r -> reference %r'
+                    % (k, vals, how, name, g, v, exp['meas'][name])))
+  return bad
+
+
+def _work_repeats(item):
+  tier, start, step = item
+  values = [5, 9.5, 11, None]
+  depth = 2 if tier == 'quick' else 3
+  n, viols, k = 0, [], 0
+  for how in ('repeat', 'on_fail'):
+    for d in range(2, depth + 1):
+      for vals in itertools.product(values, repeat=d):
+        k += 1
+        if k % step != start:
+          continue
+        n += 1
+        for kind, what in repeat_sequence(list(vals), how):
+          viols.append(('%s:%s:%r' % (kind, how, list(vals)), what, {'repeat_vals': list(vals), 'how': how}))
+  return n, viols
+
+
 def rsig(seq):
   return 'reruns: ' + ' | '.join('%s%r' % ('A:' if d else '-:', v) for d, v in seq)
 
@@ -378,6 +461,12 @@ def run(tier):
   for r in rr:
     rep.merge_violations(r[1])
   nrr = sum(r[0] for r in rr)
+  rp = common.pmap(_work_repeats, [(tier, s, 8) for s in range(8)], chunksize=1)
+  for r in rp:
+    rep.merge_violations(r[1])
+  nrp = sum(r[0] for r in rp)
+  rep.add_part('repeated invocations within one run', states=nrp, transitions=nrp, traces_validated_against_impl=nrp, evaluations=nrp,
+               exhaustive=True, samples=[{'values': [5, 9.5, 11, None], 'how': ['REPEAT', 'repeat_on_measurement_fail']}])
   rep.add_part('reruns-of-one-declared-phase', states=nrr, transitions=nrr, traces_validated_against_impl=nrr, evaluations=nrr,
                exhaustive=True, samples=[{'sequence': 'all sequences of 2 (3 in thorough) runs over {A issued, absent} x %r' % (RERUN_VALUES,)}])
   step = 8
@@ -413,6 +502,11 @@ def fix_hist(hist):
 
 def replay(art):
   r = art['replay']
+  if 'repeat_vals' in r:
+    bad = repeat_sequence(r['repeat_vals'], r['how'])
+    for b in bad:
+      print('VIOLATED', b)
+    return 1 if bad else 0
   if 'reruns' in r:
     bad = rerun_sequence([tuple(x) for x in r['reruns']])
     for b in bad:
